@@ -71,6 +71,8 @@ func Main(m *testing.M) {
 		os.Exit(m.Run())
 	case "master":
 		os.Exit(master())
+	case "selftest":
+		os.Exit(selftest())
 	default:
 		// worker / minimise / replay run under the testing framework so that
 		// synctest gets its *testing.T.
@@ -747,4 +749,68 @@ func hashString(s string) uint64 {
 	var h hasher
 	h.add(s)
 	return h.h
+}
+
+// selftest: determinism. The same seeds are executed in several OS processes
+// at GOMAXPROCS 1, 4 and 16; the operation-level event-log hashes must agree.
+func selftest() int {
+	sim := pickSim()
+	if sim == nil {
+		fmt.Fprintf(os.Stderr, "no simulation registered for property %q\n", *fProp)
+		return 2
+	}
+	runs := *fRuns
+	if runs == 0 {
+		runs = 64
+	}
+	tmp, err := os.MkdirTemp(ScratchRoot(), "verifself-")
+	if err != nil {
+		return 2
+	}
+	defer os.RemoveAll(tmp)
+	procs := []string{"1", "4", "16", "1", "4", "16", "2", "8", "16"}
+	outs := make([]*WorkerOut, len(procs))
+	var wg sync.WaitGroup
+	for i, gm := range procs {
+		wg.Add(1)
+		go func(i int, gm string) {
+			defer wg.Done()
+			of := filepath.Join(tmp, fmt.Sprintf("s%d.json", i))
+			cmd := exec.Command(selfExe(), "-vmode=selftest-worker", "-prop="+*fProp, "-tier="+*fTier,
+				"-seed="+strconv.FormatUint(*fSeed, 10), "-windex="+strconv.Itoa(i), "-runs="+strconv.Itoa(runs), "-out="+of, "-sim="+*fSimName)
+			cmd.Env = append(os.Environ(), "GOMAXPROCS="+gm)
+			var eb bytes.Buffer
+			cmd.Stdout, cmd.Stderr = &eb, &eb
+			if err := cmd.Run(); err != nil {
+				fmt.Println("selftest worker failed:", err, tail(eb.String(), 20))
+				return
+			}
+			b, _ := os.ReadFile(of)
+			o := &WorkerOut{}
+			if json.Unmarshal(b, o) == nil {
+				outs[i] = o
+			}
+		}(i, gm)
+	}
+	wg.Wait()
+	if outs[0] == nil {
+		return 2
+	}
+	diverged := 0
+	for seed, h := range outs[0].LogHashes {
+		for i := 1; i < len(outs); i++ {
+			if outs[i] == nil {
+				return 2
+			}
+			if outs[i].LogHashes[seed] != h {
+				fmt.Printf("DIVERGENCE seed=%s process %d (GOMAXPROCS=%s): %x vs %x\n", seed, i, procs[i], outs[i].LogHashes[seed], h)
+				diverged++
+			}
+		}
+	}
+	fmt.Printf("selftest property=%s seeds=%d processes=%d divergences=%d\n", *fProp, len(outs[0].LogHashes), len(procs), diverged)
+	if diverged > 0 {
+		return 1
+	}
+	return 0
 }
